@@ -93,12 +93,22 @@ inductive TextContent where
   | file (s : String)
   deriving Repr, DecidableEq
 
+/-- the one regex-list property of `remove_attribute` (`match`) / `remove_comments` (`except`) -/
+inductive RegexKey where
+  | matchKey
+  | exceptKey
+  deriving Repr, DecidableEq
+
+def RegexKey.name : RegexKey → String
+  | .matchKey => "match"
+  | .exceptKey => "except"
+
 /-- state of a configured rule, by family -/
 inductive Params where
   | plain                                                       -- the parameterless rules
   | appendText (content : TextContent) (atEnd : Bool)           -- append_text_comment
   | preserve (b : Bool)                                         -- remove_assertions, remove_debug_profiling
-  | regexes (xs : List String)                                  -- remove_comments.except, remove_attribute.match
+  | regexes (key : RegexKey) (xs : List String)                   -- remove_comments.except, remove_attribute.match
   | strategy (tostring : Bool)                                  -- remove_interpolated_string
   | convertRequire (current target : String)                    -- convert_require (modes by name; options: unmodelled)
   | rename (globals : List String) (includeFunctions detectGlobals : Bool)  -- rename_variables
@@ -107,7 +117,7 @@ inductive Params where
   deriving Repr, DecidableEq
 
 inductive RuleKind where
-  | plain | appendText | preserve | regexes (key : String) | strategy | convertRequire | rename | inject
+  | plain | appendText | preserve | regexes (key : RegexKey) | strategy | convertRequire | rename | inject
   deriving Repr, DecidableEq
 
 /-- `FromStr for Box<dyn Rule>` (which names exist) together with the family of each rule -/
@@ -125,8 +135,8 @@ def ruleTable : List (String × RuleKind) := [
   ("inject_global_value", .inject),
   ("make_assignment_local", .plain),
   ("remove_assertions", .preserve),
-  ("remove_attribute", .regexes "match"),
-  ("remove_comments", .regexes "except"),
+  ("remove_attribute", .regexes .matchKey),
+  ("remove_comments", .regexes .exceptKey),
   ("remove_compound_assignment", .plain),
   ("remove_debug_profiling", .preserve),
   ("remove_empty_do", .plain),
@@ -160,7 +170,7 @@ def schema : RuleKind → List (String × PKind)
   | .plain => []
   | .appendText => [("text", .string), ("file", .string), ("location", .enumStr ["start", "end"])]
   | .preserve => [("preserve_arguments_side_effects", .bool)]
-  | .regexes key => [(key, .regexList)]
+  | .regexes key => [(key.name, .regexList)]
   | .strategy => [("strategy", .enumStr ["string", "tostring"])]
   | .convertRequire => [("current", .requireMode), ("target", .requireMode)]
   | .rename => [("globals", .identList), ("include_functions", .bool), ("detect_globals", .bool)]
@@ -268,7 +278,7 @@ def build (kind : RuleKind) (props : List (String × Json)) : Params :=
         | none => .file (strOf (lookup "file" props)))
       (strOf (lookup "location" props) == "end")
   | .preserve => .preserve (boolOf true (lookup "preserve_arguments_side_effects" props))
-  | .regexes key => .regexes (strListOf (lookup key props))
+  | .regexes key => .regexes key (strListOf (lookup key.name props))
   | .strategy => .strategy (strOf (lookup "strategy" props) == "tostring")
   | .convertRequire => .convertRequire (strOf (lookup "current" props)) (strOf (lookup "target" props))
   | .rename =>
@@ -372,13 +382,14 @@ def deserializeRule (ext : Ext) : Json → Except Err Rule
   | _ => .error "invalid-type-rule"
 
 /-- every rule's `serialize_to_properties` (in alphabetical key order; `serializeRule` sorts anyway).
-`remove_comments.except`, `remove_attribute.match` and both `convert_require` modes are never emitted. -/
+`remove_comments.except` / `remove_attribute.match` are emitted when non-empty (after the fix of F26);
+both `convert_require` modes are never emitted (F27). -/
 def serializeToProperties : Params → List (String × Json)
   | .plain => []
   | .appendText (.value s) atEnd => (if atEnd then [("location", .str "end")] else []) ++ [("text", .str s)]
   | .appendText (.file s) atEnd => [("file", .str s)] ++ (if atEnd then [("location", .str "end")] else [])
   | .preserve b => if !b then [("preserve_arguments_side_effects", .bool false)] else []
-  | .regexes _ => []
+  | .regexes key xs => if xs.isEmpty then [] else [(key.name, .arr (xs.map .str))]
   | .strategy tostr => if tostr then [("strategy", .str "tostring")] else []
   | .convertRequire _ _ => []
   | .rename globals incl det =>
@@ -405,14 +416,14 @@ def oneOrList : List String → Json
   | [x] => .str x
   | xs => .arr (xs.map .str)
 
-/-- `impl Serialize for dyn Rule`: the name alone when there is no property — whatever the filters;
-otherwise an object in which `skip_files` is written under the condition `!apply_to_filters.is_empty()` -/
+/-- `impl Serialize for dyn Rule` (after the fix of F22): the name alone when there is neither a property
+nor a filter; otherwise an object with `apply_to_files` / `skip_files` each written when non-empty -/
 def serializeRule (r : Rule) : Json :=
   let props := sortKv (serializeToProperties r.params)
-  if props.isEmpty then .str r.name
+  if props.isEmpty && r.apply.isEmpty && r.skip.isEmpty then .str r.name
   else .obj (("rule", .str r.name)
     :: (if !r.apply.isEmpty then [("apply_to_files", oneOrList r.apply)] else [])
-    ++ (if !r.apply.isEmpty then [("skip_files", oneOrList r.skip)] else [])
+    ++ (if !r.skip.isEmpty then [("skip_files", oneOrList r.skip)] else [])
     ++ props)
 
 /-! ### the configuration -/
@@ -447,7 +458,7 @@ def plainRule (name : String) : Rule := { name := name, params := .plain, apply 
 /-- `get_default_rules` -/
 def defaultRules : List Rule :=
   [plainRule "remove_spaces",
-   { name := "remove_comments", params := .regexes [], apply := [], skip := [] },
+   { name := "remove_comments", params := .regexes .exceptKey [], apply := [], skip := [] },
    plainRule "compute_expression", plainRule "remove_unused_if_branch", plainRule "remove_unused_while",
    plainRule "filter_after_early_return", plainRule "remove_empty_do", plainRule "remove_unused_variable",
    plainRule "remove_method_definition", plainRule "convert_index_to_field", plainRule "remove_nil_declaration",
@@ -463,8 +474,9 @@ def columnSpanOf (fields : List (String × Json)) : Except Err Nat :=
     | [_] => .error "invalid-type"
     | _ => .error "duplicate-field"
 
-/-- `string_or_struct::<GeneratorParameters>`. In the object form the tag `name` is taken out first;
-for the unit variant `retain_lines` serde then accepts *any* remaining fields (sic). -/
+/-- `string_or_struct::<GeneratorParameters>`. In the object form the tag `name` is taken out first; the
+remaining fields are those of the variant (none for `retain_lines`: after the fix of F25 the object form is
+read through a helper enum whose `RetainLines {}` is a struct variant, so `deny_unknown_fields` applies). -/
 def deserializeGen : Json → Except Err Gen
   | .str s =>
     if s == "retain_lines" || s == "retain-lines" then .ok .retainLines
@@ -476,7 +488,8 @@ def deserializeGen : Json → Except Err Gen
     | [] => .error "missing-field"
     | [(_, .str tag)] =>
       let fields := kvs.filter (fun kv => kv.1 != "name")
-      if tag == "retain_lines" || tag == "retain-lines" then .ok .retainLines
+      if tag == "retain_lines" || tag == "retain-lines" then
+        (if fields.isEmpty then .ok .retainLines else .error "unknown-field")
       else if tag == "dense" then
         match columnSpanOf fields with
         | .ok n => .ok (.dense n)
@@ -635,18 +648,12 @@ def serializeConfig (c : Config) : Json :=
 
 /-! ### the region in which serialisation is lossless (hypothesis of `roundtrip_partial`) -/
 
-/-- a rule whose parameters and filters all survive `serializeRule`:
-* its filters are written: none at all, or both lists written because the rule has properties *and*
-  `apply` is non-empty (F22);
-* it is not one of the rules whose properties are never written (`remove_comments.except`,
-  `remove_attribute.match`, `convert_require`). -/
+/-- a rule whose parameters and filters all survive `serializeRule`: since the fixes of F22 (filters) and
+F26 (`except` / `match`) every rule except `convert_require`, whose two modes are never written (F27). -/
 def ruleLossless (r : Rule) : Bool :=
-  ((r.apply.isEmpty && r.skip.isEmpty)
-      || (!(serializeToProperties r.params).isEmpty && !r.apply.isEmpty))
-    && (match r.params with
-      | .regexes xs => xs.isEmpty
-      | .convertRequire _ _ => false
-      | _ => true)
+  match r.params with
+  | .convertRequire _ _ => false
+  | _ => true
 
 /-- H₁₉ -/
 def lossless (c : Config) : Bool := c.rules.all ruleLossless
@@ -657,7 +664,7 @@ def paramsWF (ext : Ext) : RuleKind → Params → Bool
   | .plain, .plain => true
   | .appendText, .appendText _ _ => true
   | .preserve, .preserve _ => true
-  | .regexes _, .regexes xs => xs.all ext.regexOk
+  | .regexes key, .regexes key' xs => key == key' && xs.all ext.regexOk
   | .strategy, .strategy _ => true
   | .convertRequire, .convertRequire c t => requireModeNames.contains c && requireModeNames.contains t
   | .rename, .rename g _ _ => normalizeGlobals g == g && g.all identOk
